@@ -92,6 +92,9 @@ def history():
                 "init": gen.poly_strategy(labels, 4, 4, gen.MIXED_COEFS, repeats=True,
                                           quad=gen.is_quad(kind), spin=gen.is_spin(kind)),
                 "ops": st.lists(_ops(kind, labels), min_size=1, max_size=30),
+                # number type of every value this history hands to the model (zeros included): python numbers,
+                # numpy scalars or Fractions
+                "ctype": gen.CTYPE,
             }))
     return st.sampled_from(gen.ALL_KINDS + ["PCBO", "PCSO", "PCBO", "PCSO", "PUSO", "PUBO"]).flatmap(for_kind)
 
@@ -224,7 +227,13 @@ def _run(spec, rec, qv):
     classes = {kind}
     flags = set()
 
-    M = lib(gen.build, qv, kind, spec["init"], what="build")
+    ctype = spec.get("ctype") or "plain"
+    if ctype != "plain":
+        classes.add("ctype=" + ctype)
+
+    def W(v):
+        return gen.wrap_number(v, ctype)
+    M = lib(gen.build, qv, kind, gen.wrap_terms(spec["init"], ctype), what="build")
     if any(len(set(k)) != len(k) for k, _ in spec["init"]):
         flags.add("repeated_label")
     check_bookkeeping(M, kind, "build")
@@ -234,16 +243,16 @@ def _run(spec, rec, qv):
 
     def operand_obj(o):
         if o[0] == "scalar":
-            return o[1]
+            return W(o[1])
         if o[0] == "dict":
-            return gen.terms_dict(o[1])
-        return gen.build(qv, kind, o[1])
+            return gen.terms_dict(gen.wrap_terms(o[1], ctype))
+        return gen.build(qv, kind, gen.wrap_terms(o[1], ctype))
 
     for op in spec["ops"]:
         name = op[0]
         exact = False
         if name in ("set", "iadd_item", "isub_item"):
-            key, v = tuple(op[1]), op[2]
+            key, v = tuple(op[1]), W(op[2])
             if len(set(key)) != len(key):
                 flags.add("repeated_label")
             if name == "set":
@@ -300,7 +309,7 @@ def _run(spec, rec, qv):
                 return M
             lib(f, what="imul")
         elif name == "idiv":
-            c = op[1]
+            c = W(op[1])
 
             def f(M=M):
                 M /= c
@@ -325,7 +334,7 @@ def _run(spec, rec, qv):
                 return M
             lib(f, what="ipow")
         elif name == "update":
-            lib(M.update, gen.terms_dict(op[1]), what="update")
+            lib(M.update, gen.terms_dict(gen.wrap_terms(op[1], ctype)), what="update")
         elif name == "update_constrained":
             rel, terms, lam, log_trick = op[1], op[2], op[3], op[4]
             if names_seen or M.num_ancillas or any(_is_anc(l) for l in M.variables):
